@@ -146,3 +146,37 @@ def search_more(ctx, modes, build_fn=build_all):
         if found:
             break
     return found
+
+
+# ---------------------------------------------------------------------------------------------------------------------
+# source-level tie of the sampling path (C10 / C11): tools/gen_gauss_ast.py (appended; nothing above is changed)
+def translators_gauss(repo):
+    """Generated/GaussAst.lean is re-translated from clang's AST of include/nfl/prng/FastGaussianNoise.hpp on every run (cmp and the
+    sampling path of getNoise for three instantiations); the equalities with the hand model (Proofs/GaussAstEq.lean, incl. the
+    `*_eq_G : … := rfl` ties of the generated text to its parameterised form) and the transported statements (Properties/C10Ast.lean)
+    are then re-checked by `lake build`."""
+    import json as _json, os as _os
+    r = cl.run(["python3", _os.path.join(cl.HERE, "gen_gauss_ast.py"), "--repo", repo])
+    info = {"ok": r.returncode == 0}
+    if r.returncode != 0:
+        info["err"] = (r.stdout + r.stderr)[-2000:]
+    else:
+        try:
+            info.update(_json.loads(r.stdout.strip().splitlines()[-1]))
+            info.pop("node_kinds", None)
+        except Exception as e:
+            info["ok"] = False
+            info["err"] = "unparsable summary: %s" % e
+    return {"gen_gauss_ast": info}
+
+
+GAUSS_AST_TB = ("source-level tie of FastGaussianNoise::cmp / ::getNoise (sampling path): clang++-14's typed AST (-ast-dump=json) of "
+                "include/nfl/prng/FastGaussianNoise.hpp instantiated for <uint8_t,int32_t,1>, <uint16_t,int64_t,2>, <uint8_t,uint64_t,2>, "
+                "tools/gen_gauss_ast.py's traversal and its conventions (pieces pre / cond / one loop iteration; members and live locals "
+                "= parameters; `for (int i = 0; i < B; i++)` and the range-for over std::list = CG.forEach; if with break/return = rest of "
+                "the block copied into both branches; fastrandombytes = DATA in the call log, no read after it in a piece; float product "
+                "= the PARAMETER innoise_words_f; if (_verbose) I/O, rdtsc, delete[] skipped and listed under translators.gen_gauss_ast.not_translated), "
+                "the per-node semantics of lean/NflVerif/Model/CSem.lean + CSemGauss.lean (pointer = object cells + offset, access outside "
+                "the object = none; signed ++ read as wrap-around at translators.gen_gauss_ast.ub_wrap_assumed; new[] cells modelled as 0); "
+                "NOT translated: init / precomputeBarrierValues (MPFR), buildLookupTables (hand model only), the while loop itself "
+                "(hand-written recursion of Model/Gauss.lean, tied to the generated body by Nfl.C10Ast.iter_ast_eq_*)")
